@@ -31,6 +31,8 @@ def run_property(prop, tier, repo_root, seed=0, replay=None, write=True):
     except AnalysisError as e:
         err = str(e)
     except RecursionError:
+        tb = traceback.format_exc().strip().splitlines()
+        sys.stderr.write('\n'.join(tb[:12] + ['...'] + tb[-12:]) + '\n')
         err = 'internal recursion limit'
     except Exception as e:        # noqa - every traceback becomes exit 2
         tb = traceback.format_exc()
